@@ -38,7 +38,7 @@ def evaluate(ctx, flags: Dict[str, Val], available: Optional[bool], gzip=Const(F
     args['delay'] = Num(sym.sym('delay'))
     args['gzip'] = gzip
     args['unpack_dataset_columns'] = Const(False)
-    args.update(flags)
+    args.update(flags)      # (flags may override the unpack flag)
 
     def decide(p):
         if available is None:
@@ -116,6 +116,13 @@ def check_slot_writers(ctx):
             if e.data['name'] == 'builtins.open' and (open_mode(e) or 'r')[0] in 'wax':
                 writes.append((e, e.data['pos'][0] if e.data['pos'] else e.data['kw'].get('file'), f"open(mode={open_mode(e)})"))
         ctx.floor('C19.1', len(writes), 2, 'file-writing effects in the download path')
+        # concurrent loaders: creating the slot's directory must be idempotent (exist_ok=True), not check-then-create
+        mk = [e for e in libs if e.data['name'] in ('os.makedirs', 'os.mkdir')]
+        for e in mk:
+            eo = e.data['kw'].get('exist_ok', e.data['pos'][2] if len(e.data['pos']) > 2 else None)
+            ctx.check(e.data['name'] == 'os.makedirs' and isinstance(eo, Const) and eo.v is True, 'C19.1',
+                      f"{tag}: directory creation at {e.loc()} tolerates a directory made meanwhile by a concurrent loader (makedirs(..., exist_ok=True))",
+                      f"{e.data['name']}(exist_ok={show(eo, 20) if eo is not None else 'absent'}) under {[str(g)[:60] for g in e.guard][-1:]}", e.loc(), fi.qualname, f"mkdir:{tag}")
         for e, d, how in writes:
             ctx.check(d is not None and in_tmp(d), 'C19.1', f"{tag}: {how} at {e.loc()} writes inside the temporary directory",
                       f"destination {show(d, 160)}", e.loc(), fi.qualname, f"write:{how}:{tag}")
